@@ -315,6 +315,29 @@ func checkSplit(c *core.Ctx, r *core.Rule, fn *ssa.Function) {
 	if n == 0 {
 		r.Undecided("splitFunc:callback", c.Pos(fn.Pos()), "splitFunc never calls its callback")
 	}
+	// every exit either returns a callback result (the final piece was delivered) or the non-nil error
+	// of a callback: a constant nil return would end the scan without delivering the last (possibly
+	// empty) piece, e.g. the "" member designated by a trailing "/"
+	for _, b := range fn.Blocks {
+		ret, ok := b.Instrs[len(b.Instrs)-1].(*ssa.Return)
+		if !ok {
+			continue
+		}
+		okRet := false
+		for _, v := range core.PhiClosure(ret.Results[0]) {
+			if call, isCall := v.(*ssa.Call); isCall && call.Common().Value == ssa.Value(cb) {
+				okRet = true
+			} else {
+				okRet = false
+				break
+			}
+		}
+		if okRet {
+			r.Pass(fmt.Sprintf("splitFunc exit at %s returns a callback result", c.Pos(ret.Pos())))
+		} else {
+			r.Fail("splitFunc:exit", c.Pos(ret.Pos()), "splitFunc can finish without handing the final piece to the callback: a trailing empty token (pointer ending in \"/\") is dropped and the parent node is returned")
+		}
+	}
 }
 
 func checkFindKey(c *core.Ctx, r *core.Rule, fn *ssa.Function) {
